@@ -19,6 +19,7 @@
 #include <src/mbuff.c>          /* -I<repo>: the tree under test (a quoted "mbuff.c" would be this file) */
 #pragma clang attribute pop
 #include <sys/wait.h>
+#include <sanitizer/asan_interface.h>
 
 #define WMAX 65536L
 static char ctx[512];
@@ -248,9 +249,7 @@ static void replay(void)
     long L = vn_get("w_len", 0), S = vn_get("w_size", 0), sl, NL, NOFF; int c = (int) vn_get("w_c", 'a');
     static const int bytes[] = { 'a', 0, ' ', 0xfe, 'q', 'd', 'b' };
     unsigned ci;
-# ifdef U_HUGE
-    return;            /* > 2 GiB states: not rebuilt (findings/demos/C07_reverse_huge.c does that) */
-# endif
+    /* (reverse.huge: states above 2 GiB are not rebuilt - findings/demos/C07_reverse_huge.c does that - only the sweep runs) */
     if (small(L) && small(S) && L <= S) one(L, S, c, 0, 0);
     for (L = 0; L <= 9; L++) for (sl = 0; sl <= 2; sl++) for (ci = 0; ci < sizeof(bytes) / sizeof(bytes[0]); ci++) {
 # if defined(U_EMPTY)
@@ -296,6 +295,15 @@ static void one(long L, long S, long OL, long OS, long cnt, int variant)
 #  endif
     }
     CHK(r == -1 || r == 0 || r == 1, "cmp_with_ptr: answer is LESS, EQUAL or GREATER");
+#  ifdef U_CMP_PTR
+    CHK(spif_mbuff_cmp_with_ptr((spif_mbuff_t) NULL, o->buff ? o->buff : (spif_byteptr_t) "", 0) == SPIF_CMP_LESS &&
+        spif_mbuff_cmp_with_ptr(s, (spif_byteptr_t) NULL, 0) == SPIF_CMP_GREATER &&
+        spif_mbuff_cmp_with_ptr((spif_mbuff_t) NULL, (spif_byteptr_t) NULL, 0) == SPIF_CMP_EQUAL, "cmp_with_ptr: NULL sorts first");
+#  else
+    CHK(spif_mbuff_ncmp_with_ptr((spif_mbuff_t) NULL, o->buff ? o->buff : (spif_byteptr_t) "", 0) == SPIF_CMP_LESS &&
+        spif_mbuff_ncmp_with_ptr(s, (spif_byteptr_t) NULL, 0) == SPIF_CMP_GREATER &&
+        spif_mbuff_ncmp_with_ptr((spif_mbuff_t) NULL, (spif_byteptr_t) NULL, 0) == SPIF_CMP_EQUAL, "ncmp_with_ptr: NULL sorts first");
+#  endif
     if (cnt <= L) { want = ideal_cmp(s->buff, cnt, o->buff, cnt); CHK(r == want, "cmp_with_ptr: order of the first n bytes"); }
     else if (cnt > S) CHK(r != 0, "cmp_with_ptr: a sequence shorter than the count is never EQUAL");
 # endif
@@ -385,14 +393,19 @@ static void replay(void)
 #elif defined(U_DONE) || defined(U_DEL) || defined(U_DUP) || defined(U_TYPE) || defined(U_ACCESSORS) || defined(VERIF_MB_FMTSTUBS)
 static void one(long L, long S)
 {
-    spif_mbuff_t s = mk(0, L, S); unsigned char *before = snap(s);
+    spif_mbuff_t s = mk(0, L, S); unsigned char *before = snap(s); void *before_blk = s->buff;
     snprintf(ctx, sizeof(ctx), "self (len %ld, size %ld)", L, S);
+    (void) before_blk;
 # if defined(U_DONE)
     CHK(spif_mbuff_done(s) == TRUE, "done returns TRUE");
     CHK(s->buff == NULL && s->len == 0 && s->size == 0, "done leaves the (NULL,0,0) state");
+    CHK(S == 0 || __asan_address_is_poisoned(before_blk), "done releases the buffer");
     spif_mbuff_del(s);
 # elif defined(U_DEL)
-    CHK(spif_mbuff_del(s) == TRUE, "del returns TRUE");
+    { void *blk = s->buff;
+      CHK(spif_mbuff_del(s) == TRUE, "del returns TRUE");
+      CHK(__asan_address_is_poisoned(s), "del releases the object");
+      CHK(blk == NULL || __asan_address_is_poisoned(blk), "del releases the buffer"); }
 # elif defined(U_DUP)
     { spif_mbuff_t d = spif_mbuff_dup(s); CHK(d != NULL && d != s && (S == 0 || d->buff != s->buff), "dup: a fresh object with a block of its own");
       same(d, before, L, "dup: same bytes"); CHK(d->size == S, "dup: same capacity"); spif_mbuff_clear(d, 'x'); spif_mbuff_del(d);
